@@ -255,7 +255,7 @@ func tail(s string, n int) string {
 func classOf(r *EpisodeResult) string {
 	if r.Crash != "" {
 		kind, sig := crashSignature(r.Crash)
-		if kind == "crash" || ((kind == "resource" || kind == "watchdog") && r.Prop == "C05") {
+		if kind == "crash" || kind == "watchdog" || (kind == "resource" && r.Prop == "C05") {
 			// C05 claims that the host survives: its workloads request no large
 			// allocations, so a worker that dies of memory exhaustion (6 GiB cap)
 			// was made to allocate without bound by the script
@@ -490,10 +490,8 @@ func cmdCheck(args []string) int {
 					infra = append(infra, fmt.Sprintf("seed %d: worker died of memory exhaustion\n%s", j.Seed, tail(r.Crash, 800)))
 				}
 			case "watchdog":
-				if id == "C05" {
-					break // a call that never comes back from native code: reported as a violation class
-				}
-				infra = append(infra, fmt.Sprintf("seed %d: watchdog\n%s", j.Seed, tail(r.Crash, 1500)))
+				// handled below as class crash:hang:... : repeated alone in a fresh process;
+				// not reproduced -> inconclusive; reproduced -> violation (C05, C07) or exit 2
 			}
 		}
 		if r.Fatal != "" {
@@ -594,6 +592,11 @@ func cmdCheck(args []string) int {
 		}
 		if !ok {
 			fmt.Fprintf(os.Stderr, "violation class %q (seed %d, %d episodes) did not reproduce on replay in a fresh process: not reported (exit 2)\n", cl, first.job.Seed, len(recs))
+			exit = 2
+			continue
+		}
+		if strings.HasPrefix(cl, "crash:hang:") && id != "C05" && id != "C07" {
+			fmt.Fprintf(os.Stderr, "seed %d burns CPU without reaching a hook, reproducibly (replay %s); this property does not claim termination: no verdict (exit 2)\n", first.job.Seed, path)
 			exit = 2
 			continue
 		}
